@@ -98,8 +98,11 @@ def edge_cases(add, rnd, tier):
     shapes = [J.Bin("Divide", X, Y), J.Bin("Divide", C[1], X), J.Bin("Divide", C[1], J.KUn("NthPower", X, 2)), J.Un("Reciprocal", X), J.Mul(X, J.Un("Reciprocal", Y)),
               J.Bin("Divide", J.Add(X, Y), J.Bin("Minus", X, Y)), J.KUn("NthRoot", X, 2), J.KUn("NthRoot", J.Bin("Divide", X, Y), 3), J.Bin("Divide", J.Const(1, 100000), Y),
               J.BUn("Logarithm", X, gen.E_), J.Bin("Power", X, C[H_]), J.Mul(X, Y), J.Add(X, J.Bin("Divide", C[0], Y))]
+    tiny = [5e-324, 1e-310, 2.0 ** -60, 1e-9]
     for t in shapes:
         add(t, pts=extreme_points(J.variables(t), rnd, 10 if tier == "quick" else 60))
+        vs = sorted(J.variables(t))
+        add(t, pts=[dict(zip(vs, [float_v(a) for a in combo])) for combo in itertools.product(tiny, repeat=len(vs))])
     for b in near_one_bases():
         for t in (J.BUn("Logarithm", X, b), J.Mul(C[0], J.BUn("Logarithm", X, b)), J.BUn("Exponential", X, b), J.Add(J.BUn("Logarithm", J.Add(X, Y), b), C[1])):
             add(t, pts=gen.grid(J.variables(t), [gen.q(-1), gen.q(0), gen.q(1, 2), gen.q(2)]))
@@ -272,6 +275,8 @@ def float_layer(case, row, j, pid_tags):
         return ["V:C02.number_outside_domain"] if o["k"] in NUMK else []
     if o["k"] == "DomainError":
         return ["V:C02.raised_on_domain", "V:C01.raised"]
+    if o["k"] == "bad":
+        return ["V:C02.not_a_finite_real_" + o.get("t", "")]       # defined, every exact intermediate in range - and not a finite real
     if o["k"] in NUMK:
         f = float(o["repr"])
         ok = SV.close(f, res[1], res[2], rel=1e-11)
